@@ -574,7 +574,9 @@ def edge_facts(fn, bb):
                         vals = set()
                 else:
                     vals = {'false'} if label == '0' else {'true'}
-                res.append(_facts_for(fn, S, term, vals, 'bool'))
+                fs = _facts_for(fn, S, term, vals, 'bool')
+                fs.extend(_named_alias_facts(fn, t['o'], vals))
+                res.append(fs)
             else:
                 res.append(_facts_for_value(fn, S, term, label, listed))
     elif t['k'] == 'assert':
@@ -583,6 +585,32 @@ def edge_facts(fn, bb):
         res.append(_facts_for(fn, S, term, vals, 'bool'))
     fn._sym[key] = res
     return res
+
+
+def _named_alias_facts(fn, o, vals):
+    """a bool switch operand that is (a copy / negation of) a user-named local also yields a
+    fact about that name: `let corrupted = a != b; .. if corrupted`."""
+    out = []
+    if o[0] not in ('c', 'm') or o[1][1]:
+        return out
+    cur = o[1][0]
+    v = set(vals)
+    for _ in range(8):
+        nm = fn.local_name(cur)
+        if nm:
+            out.append(Fact('place', None, nm, v))
+        ds = fn.defs.get(cur, [])
+        if len(ds) != 1 or ds[0][0] != 'stmt':
+            break
+        rv = ds[0][3]
+        if rv['k'] == 'use' and rv['o'][0] in ('c', 'm') and not rv['o'][1][1]:
+            cur = rv['o'][1][0]
+        elif rv['k'] == 'un' and rv['op'] == 'Not' and rv['o'][0] in ('c', 'm') and not rv['o'][1][1]:
+            cur = rv['o'][1][0]
+            v = _flip(v)
+        else:
+            break
+    return out
 
 
 def _flip(vals):
@@ -630,6 +658,13 @@ def _collect_cmp(fn, S, term, out, depth=0):
     elif k == 'cmp':
         _collect_cmp(fn, S, term[2], out, depth + 1)
         _collect_cmp(fn, S, term[3], out, depth + 1)
+    elif k == 'agg' and len(term) >= 5:
+        st = fn.blocks[term[3]]['s'][term[4]]
+        nm = fn.local_name(st[1][0]) if not st[1][1] else None
+        if nm:
+            out.append(Fact('place', None, nm, set(), cmp=True, term=term))
+        for o in st[2]['o']:
+            _collect_cmp(fn, S, S.operand(o), out, depth + 1)
 
 
 def _facts_for(fn, S, term, vals, mode, depth=0):
